@@ -1,6 +1,7 @@
 """C10 - middleware hooks fire in the documented order, once per message."""
 import common as C
 import pipeline_lib as L
+import srctie
 
 META = dict(
     id="C10",
@@ -53,6 +54,10 @@ ORACLES = [L.oracle_c10_recv]
 def run(ctx):
     rep = C.Report(ctx, META)
     rep.add_obligations(C.proof_obligations("C10"))
+    # source tie: Receiver.callback re-translated from the source text; srcproofs/Src_callback_*.v re-checked against it
+    src_obs, src_info = srctie.obligations(ctx, "callback", "C10")
+    rep.add_obligations(src_obs)
+    rep.extra["source_tie"] = src_info
     corpus = L.load_corpus_cases("C10")
     L.explore(ctx, rep, "C10", [c for c in corpus if c["type"] == "recv"], "corpus-recv", ORACLES, nontrivial)
     L.explore(ctx, rep, "C10", [c for c in corpus if c["type"] == "send"], "corpus-send", ORACLES, nontrivial)
